@@ -64,6 +64,10 @@ func (e *retryEngine) Gen(rng *rand.Rand, tier string, n int, emit func(string))
 	emit("t0a0c1 P - pub:1:1 pub:2:0 sub:61.1 start dial- dial- dial+:65533 ack- dial+:65534 ack0 dial+:65533 ack+:0 pub:3:2 pub:4:1")
 	emit("t0a0c1 P lr,wf,la start dial+:10 ack+:0 pub:1:1 pub:2:2 pub:3:0 pub:4:1" + tail)
 	emit("t0a0c1 P - start dial+:10 ack+:0 pub:1:1 disc pub:2:1")
+	emit("t0a0c0 P - start dial+:10 ack+:0 pub:1:1 close pub:2:1 dial+:20 disc ack- dial+:30 ack+:1")  // Disconnect while waiting for CONNACK, refused
+	emit("t0a0c0 P - start dial+:10 ack+:0 pub:1:1 close pub:2:1 dial+:20 disc ack+:1 dial+:30 ack+:1") // … accepted: the queued DISCONNECT goes out on the new connection
+	emit("t0a0c0 P - start dial+:10 ack+:0 close disc dial+:30 ack+:1")                                 // Disconnect while waiting to redial
+	emit("t0a0c0 P - start disc dial+:10 ack+:1")                                                       // Disconnect while the first dial is in progress
 	if tier == "thorough" {
 		// all single- and double-fault plans over every position of short histories
 		faults := []string{"ok", "wf", "lr", "la"}
@@ -210,7 +214,11 @@ func genRetryScript(rng *rand.Rand) string {
 			inb++
 			evs = append(evs, fmt.Sprintf("in:%d:%d", inb, rng.Intn(2)))
 		case x < 19:
-			evs = append(evs, fmt.Sprintf("handle:%d", 1+rng.Intn(3)))
+			if rng.Intn(4) == 0 {
+				evs = append(evs, "disc") // Disconnect in whatever phase the loop is in
+			} else {
+				evs = append(evs, fmt.Sprintf("handle:%d", 1+rng.Intn(3)))
+			}
 		default:
 			evs = append(evs, fmt.Sprintf("dial+:%d", idStart), "ack+:1")
 			idStart += 100
